@@ -529,7 +529,9 @@ const COMMENTS: &[&str] = &[
     // longer than any fixed-size line buffer
     "; ---------------------------------------------------------------------------------------------------------------------------------------------------------------------------------------------------------------------------------------------------------------------------------------------------------------------------- long line",
 ];
-const MB_COMMENTS: &[&str] = &["; caf\u{e9} \u{2713}", "; \u{1F34B} lemon", "; \u{e9}"];
+const MB_COMMENTS: &[&str] = &["; caf\u{e9} \u{2713}", "; \u{1F34B} lemon", "; \u{e9}",
+    // case mapping changes the UTF-8 length of these (Kelvin, Ohm, dotted capital I, capital sharp s)
+    "; 300 \u{212a}, 50 \u{2126}", "; \u{130}stanbul \u{1e9e}", "; \u{212b}\u{212a}\u{212a}\u{212a} \u{df}"];
 
 pub fn br_name(nzp: u8, rng: &mut Rng, wild: bool) -> &'static str {
     match nzp & 7 {
@@ -808,6 +810,8 @@ const STR_BODIES: &[&str] = &[
     "a string literal that is longer than the cell", "sixteen chars ok",
     // control characters written raw inside the quotes (not as escapes)
     "a\tb", "\ttab first", "bell\u{7}!", "form\u{c}feed",
+    // characters whose case mapping changes their UTF-8 length
+    "273 \u{212a}", "\u{130}\u{130}\u{130}", "10 k\u{2126} \u{1e9e}",
 ];
 
 #[derive(Clone, Debug)]
